@@ -1,11 +1,14 @@
 import UralModel.Lemmas.Quote
 import UralModel.Lemmas.QuoteIdem
+import UralModel.Lemmas.QuoteUpper
+import UralModel.Lemmas.QuoteControl
 import UralModel.Gen.QuoteTables
+import UralModel.Model.Canonicalize
 /-!
 # C14 — Safe quoting/unquoting preserves decoded content and delimiters
 -/
 namespace Ural.Props.C14
-open Ural Ural.Py Ural.Quote
+open Ural Ural.Py Ural.Quote Ural.QuoteUpper Ural.QuoteControl
 
 /-! ## table obligations: re-checked by `decide` whenever the tables are regenerated -/
 
@@ -207,12 +210,462 @@ theorem unquote_idempotent (U : List UInt8) (hU : (0x25 : UInt8) ∈ U) (hA : As
   unfold safelyUnquote at h ⊢
   rw [h, escapeRaw_unquoteToks, unquoteToks_idem U hU hA]
 
+/-! ## upper_quoted
+
+`upper_quoted = LOWERCASE_QUOTED_RE.sub(upper_match, ·)`: the function `canonicalize_url` and
+`normalize_url` apply to the whole URL before parsing it (`Model/Canonicalize.lean`
+`cleanUrl`, `Model/Normalize.lean` `preClean` call this very `upperQuoted`).  The clause "only
+changes the case of hex digits inside valid escapes" is stated on plain string
+decompositions, not on the model's tokens: an escape of `s` is any occurrence of `%` followed
+by two hex digits, `s = a ++ %h1h2 ++ b`. -/
+
+/-- position `i` of `s` holds one of the two hex digits of a valid escape of `s` -/
+def EscDigitAt (s : Str) (i : Nat) : Prop :=
+  ∃ a h1 h2 b, s = a ++ '%' :: h1 :: h2 :: b ∧ isHexDigit h1 = true ∧ isHexDigit h2 = true ∧
+    (i = a.length + 1 ∨ i = a.length + 2)
+
+/-- the scan of the output is the scan of the input with the hex digits of every escape
+upper-cased: no escape appears, disappears or moves, raw characters and stray `%` stay -/
+theorem upper_tokens (s : Str) : tokens (upperQuoted s) = (tokens s).map upperTok :=
+  tokens_upperQuoted s
+
+/-- same length -/
+theorem upper_length (s : Str) : (upperQuoted s).length = s.length := length_upperQuoted s
+
+theorem getElem?_mid1 {α : Type} (a : List α) (x y z : α) (b : List α) :
+    (a ++ x :: y :: z :: b)[a.length + 1]? = some y := by
+  simp
+
+theorem getElem?_mid2 {α : Type} (a : List α) (x y z : α) (b : List α) :
+    (a ++ x :: y :: z :: b)[a.length + 2]? = some z := by
+  simp
+
+/-- (a, inside) at the position of a hex digit of a valid escape the output holds that digit
+upper-cased -/
+theorem upper_inside (s : Str) (i : Nat) (h : EscDigitAt s i) :
+    (upperQuoted s)[i]? = s[i]?.map upperChar := by
+  obtain ⟨a, h1, h2, b, rfl, hh1, hh2, hi⟩ := h
+  rw [upperQuoted_append_esc hh1 hh2]
+  have hl := length_upperQuoted a
+  rcases hi with rfl | rfl
+  · rw [getElem?_mid1, ← hl, getElem?_mid1]; rfl
+  · rw [getElem?_mid2, ← hl, getElem?_mid2]; rfl
+
+/-- (a, outside) at every other position the output holds the character of the input -/
+theorem upper_outside (s : Str) (i : Nat) (h : ¬ EscDigitAt s i) :
+    (upperQuoted s)[i]? = s[i]? := by
+  have hr := render_map_upperTok (tokens s)
+  rw [Quote.render_tokens] at hr
+  have hlen := length_upMask (tokens s)
+  rw [Quote.render_tokens] at hlen
+  show (render ((tokens s).map upperTok))[i]? = s[i]?
+  rw [hr, applyMask, List.getElem?_zipWith]
+  cases hm : (upMask (tokens s))[i]? with
+  | none =>
+    have : s[i]? = none := by
+      rw [List.getElem?_eq_none_iff] at hm ⊢; omega
+    simp [this]
+  | some m =>
+    cases m with
+    | false => cases hs : s[i]? <;> simp
+    | true =>
+      exfalso
+      apply h
+      obtain ⟨ta, h1, h2, tb, e, hi⟩ := upMask_true _ _ hm
+      have hw := wf_tokens s (.esc h1 h2) (by rw [e]; simp)
+      refine ⟨render ta, h1, h2, render tb, ?_, hw.1, hw.2, hi⟩
+      conv => lhs; rw [← Quote.render_tokens s, e]
+      simp [render_append, renderTok]
+
+/-- (a) the output equals the input up to ASCII case, everywhere -/
+theorem upper_caseless (s : Str) : (upperQuoted s).map upperChar = s.map upperChar := by
+  have : ∀ ts : List Tok, (render (ts.map upperTok)).map upperChar = (render ts).map upperChar := by
+    intro ts
+    induction ts with
+    | nil => rfl
+    | cons t r ih =>
+      simp only [List.map_cons, render_cons, List.map_append, ih]
+      cases t <;> simp [upperTok, renderTok, upperChar_idem]
+  have h := this (tokens s)
+  rwa [Quote.render_tokens] at h
+
+/-- (a) a character that is not a hex digit — every delimiter, `%`, every non-ASCII
+character — is where it was, and nothing else is there -/
+theorem upper_nonhex_fixed (s : Str) (i : Nat) (c : Char) (hc : isHexDigit c = false) :
+    (upperQuoted s)[i]? = some c ↔ s[i]? = some c := by
+  have hcase : (upperQuoted s)[i]?.map upperChar = s[i]?.map upperChar := by
+    rw [← List.getElem?_map, ← List.getElem?_map, upper_caseless]
+  by_cases h : EscDigitAt s i
+  · -- both sides are false: position `i` holds a hex digit in both strings
+    have hin := upper_inside s i h
+    obtain ⟨a, h1, h2, b, rfl, hh1, hh2, hi⟩ := h
+    have hs : ∃ d, (a ++ '%' :: h1 :: h2 :: b)[i]? = some d ∧ isHexDigit d = true := by
+      rcases hi with rfl | rfl
+      · exact ⟨h1, getElem?_mid1 _ _ _ _ _, hh1⟩
+      · exact ⟨h2, getElem?_mid2 _ _ _ _ _, hh2⟩
+    obtain ⟨d, hd, hhd⟩ := hs
+    rw [hin, hd]
+    constructor
+    · intro e
+      simp only [Option.map_some, Option.some.injEq] at e
+      rw [← e, isHexDigit_upperChar, hhd] at hc
+      cases hc
+    · intro e
+      simp only [Option.some.injEq] at e
+      rw [e, hc] at hhd
+      cases hhd
+  · rw [upper_outside s i h]
+
+/-- (b) every valid escape of the output — any `%` followed by two hex digits in it — has
+upper-case hex digits -/
+theorem upper_escapes_upper (s a b : Str) (h1 h2 : Char)
+    (h : upperQuoted s = a ++ '%' :: h1 :: h2 :: b)
+    (hh1 : isHexDigit h1 = true) (hh2 : isHexDigit h2 = true) :
+    isUpperHex h1 = true ∧ isUpperHex h2 = true := by
+  have ht := upper_tokens s
+  rw [h, tokens_append_esc hh1 hh2] at ht
+  have hm : Tok.esc h1 h2 ∈ (tokens s).map upperTok := by rw [← ht]; simp
+  simp only [List.mem_map] at hm
+  obtain ⟨t, htm, e⟩ := hm
+  cases t with
+  | raw c => simp [upperTok] at e
+  | stray => simp [upperTok] at e
+  | esc g1 g2 =>
+    simp only [upperTok, Tok.esc.injEq] at e
+    have hw := wf_tokens s _ htm
+    rw [← e.1, ← e.2]
+    exact ⟨isUpperHex_upperChar hw.1, isUpperHex_upperChar hw.2⟩
+
+/-- the escapes of the output are where the escapes of the input are -/
+theorem upper_same_escapes (s : Str) (i : Nat) : EscDigitAt (upperQuoted s) i ↔ EscDigitAt s i := by
+  constructor
+  · rintro ⟨a, h1, h2, b, e, hh1, hh2, hi⟩
+    have ht := upper_tokens s
+    rw [e, tokens_append_esc hh1 hh2] at ht
+    obtain ⟨ta, tr, e1, ea, er⟩ := List.map_eq_append_iff.1 ht.symm
+    obtain ⟨t, tb, e2, et, eb⟩ := List.map_eq_cons_iff.1 er
+    subst e2
+    have hla : (render ta).length = a.length := by
+      rw [← length_render_map_upperTok, ea, Quote.render_tokens]
+    cases t with
+    | raw c => simp [upperTok] at et
+    | stray => simp [upperTok] at et
+    | esc g1 g2 =>
+      have hw := wf_tokens s (.esc g1 g2) (by rw [e1]; simp)
+      refine ⟨render ta, g1, g2, render tb, ?_, hw.1, hw.2, by rw [hla]; exact hi⟩
+      conv => lhs; rw [← Quote.render_tokens s, e1]
+      simp [render_append, renderTok]
+  · rintro ⟨a, h1, h2, b, rfl, hh1, hh2, hi⟩
+    refine ⟨upperQuoted a, upperChar h1, upperChar h2, upperQuoted b,
+      upperQuoted_append_esc hh1 hh2 a b, by rw [isHexDigit_upperChar]; exact hh1,
+      by rw [isHexDigit_upperChar]; exact hh2, by rw [length_upperQuoted]; exact hi⟩
+
+/-- (c) idempotent -/
+theorem upper_idempotent (s : Str) : upperQuoted (upperQuoted s) = upperQuoted s :=
+  upperQuoted_idem s
+
+/-- `upper_quoted` leaves a string alone exactly when each of its escapes is upper-case -/
+theorem upper_fixed_iff (s : Str) :
+    upperQuoted s = s ↔
+      ∀ a h1 h2 b, s = a ++ '%' :: h1 :: h2 :: b → isHexDigit h1 = true → isHexDigit h2 = true →
+        isUpperHex h1 = true ∧ isUpperHex h2 = true := by
+  constructor
+  · intro hfix a h1 h2 b e hh1 hh2
+    exact upper_escapes_upper s a b h1 h2 (by rw [hfix]; exact e) hh1 hh2
+  · intro hall
+    have : (tokens s).map upperTok = tokens s := by
+      apply map_eq_self
+      intro t ht
+      cases t with
+      | raw c => rfl
+      | stray => rfl
+      | esc h1 h2 =>
+        obtain ⟨ta, tb, e⟩ := List.append_of_mem ht
+        have hw := wf_tokens s _ ht
+        have hs : s = render ta ++ '%' :: h1 :: h2 :: render tb := by
+          conv => lhs; rw [← Quote.render_tokens s, e]
+          simp [render_append, renderTok]
+        obtain ⟨u1, u2⟩ := hall _ _ _ _ hs hw.1 hw.2
+        simp only [upperTok, ((isUpperHex_iff_fixed h1).1 u1).2, ((isUpperHex_iff_fixed h2).1 u2).2]
+    show render ((tokens s).map upperTok) = s
+    rw [this, Quote.render_tokens]
+
+/-- (d) the output decodes to the same bytes as the input -/
+theorem upper_pct (s : Str) : pctStr (upperQuoted s) = pctStr s := by
+  simp only [pctStr, upper_tokens, pct_map_upperTok]
+
+/-- (d) raw delimiters and stray percent signs: as many in the output as in the input (with
+`upper_tokens`: the same ones at the same places) -/
+theorem upper_delimiters (s : Str) (d : Char) :
+    (tokens (upperQuoted s)).count (.raw d) = (tokens s).count (.raw d) ∧
+    (tokens (upperQuoted s)).count .stray = (tokens s).count .stray := by
+  rw [upper_tokens]
+  exact ⟨count_raw_map_upperTok d _, count_stray_map_upperTok _⟩
+
+/-- `upper_quoted` and a safe unquoter can be applied in either order -/
+theorem upper_commutes_unquote (U : List UInt8) (hU : (0x25 : UInt8) ∈ U) (s : Str) :
+    safelyUnquote U (upperQuoted s) = upperQuoted (safelyUnquote U s) :=
+  safelyUnquote_upperQuoted U hU s
+
+/-- `upper_quoted` and `safely_quote` can be applied in either order -/
+theorem upper_commutes_quote (s : Str) : safelyQuote (upperQuoted s) = upperQuoted (safelyQuote s) :=
+  safelyQuote_upperQuoted s
+
+/-- what `canonicalize_url` / `normalize_url` do — `upper_quoted` on the whole URL first, the
+safe unquoters (and `safely_quote`) on its components afterwards — leaves only upper-case
+escapes: the later steps do not bring a lower-case escape back -/
+theorem upper_kept_by_quoters (U : List UInt8) (hU : (0x25 : UInt8) ∈ U) (s : Str)
+    (h : upperQuoted s = s) :
+    upperQuoted (safelyUnquote U s) = safelyUnquote U s ∧ upperQuoted (safelyQuote s) = safelyQuote s := by
+  rw [← upper_commutes_unquote U hU, ← upper_commutes_quote, h]
+  exact ⟨rfl, rfl⟩
+
+example :
+    upperQuoted "%c3%A9%e9%zz%4%%2fé%aG".toList = "%C3%A9%E9%zz%4%%2Fé%aG".toList ∧
+    upperQuoted "a%2f".toList ≠ "a%2f".toList ∧
+    EscDigitAt "a%2f".toList 2 ∧ EscDigitAt "a%2f".toList 3 ∧ ¬ EscDigitAt "%zf%".toList 2 := by
+  refine ⟨by decide +kernel, by decide +kernel, ⟨['a'], '2', 'f', [], rfl, rfl, rfl, .inl rfl⟩,
+    ⟨['a'], '2', 'f', [], rfl, rfl, rfl, .inr rfl⟩, ?_⟩
+  rintro ⟨a, h1, h2, b, e, hh1, hh2, hi⟩
+  match a, e with
+  | [], e => simp at e; obtain ⟨rfl, _⟩ := e; revert hh1; decide
+  | [x], e => simp at e
+  | [x, y], e => simp at e
+  | x :: y :: z :: r, e => simp at hi
+
+/-! ## string-level forms and the remaining clauses of the statement -/
+
+/-- "every pre-existing `%XX` escape is kept as is", on plain strings: around any occurrence
+of `%` + two hex digits, `safely_quote` works on what precedes and on what follows, and copies
+the escape -/
+theorem quote_keeps_escapes_str (a b : Str) (h1 h2 : Char)
+    (hh1 : isHexDigit h1 = true) (hh2 : isHexDigit h2 = true) :
+    safelyQuote (a ++ '%' :: h1 :: h2 :: b) = safelyQuote a ++ '%' :: h1 :: h2 :: safelyQuote b :=
+  safelyQuote_append_esc hh1 hh2 a b
+
+/-- "everything else is escaped": outside its escapes the output of `safely_quote` only holds
+characters that `urllib.parse.quote` leaves alone (unreserved and `/`), and no stray `%` -/
+theorem quote_rest_escaped (s : Str) :
+    (∀ c, Tok.raw c ∈ tokens (safelyQuote s) → quoteSafe c = true) ∧
+    Tok.stray ∉ tokens (safelyQuote s) := by
+  rw [quote_tokens]
+  constructor
+  · intro c hc
+    simp only [quoteToks, List.mem_flatMap] at hc
+    obtain ⟨t, _, ht⟩ := hc
+    cases t with
+    | raw c0 =>
+      simp only [quoteTok] at ht
+      split at ht
+      · rename_i hq
+        simp only [List.mem_singleton, Tok.raw.injEq] at ht
+        subst ht; exact hq
+      · simp only [List.mem_map] at ht
+        obtain ⟨b, _, hb⟩ := ht
+        simp [escOfByte] at hb
+    | esc h1 h2 => simp [quoteTok] at ht
+    | stray => simp [quoteTok] at ht
+  · intro hc
+    have := canon_quoteToks (wf_tokens s) _ hc
+    exact this
+
+/-- the output of a safe unquoter has no stray `%`: nothing in it can combine with what a
+later pass decodes into a new escape -/
+theorem unquote_no_stray (U : List UInt8) (hU : (0x25 : UInt8) ∈ U) (s : Str) :
+    Tok.stray ∉ tokens (safelyUnquote U s) := by
+  intro h
+  obtain ⟨e, hout, _⟩ := unquote_tokens U hU s
+  rw [e] at h
+  exact canon_of_outTok hU (wf_escapeRaw (wf_tokens s)) (hout _ h)
+
+/-- "leaves escaped every character that delimits its component", for any table: every byte
+of the unsafe set other than the space is a character whose raw occurrences are the same in
+the output and in the input -/
+theorem unquote_delimiters_table (U : List UInt8) (hU : (0x25 : UInt8) ∈ U) (hA : AsciiSet U)
+    (b : UInt8) (hb : b ∈ U) (hsp : b ≠ 0x20) (s : Str) :
+    (tokens (safelyUnquote U s)).count (.raw (Char.ofNat b.toNat)) =
+      (tokens s).count (.raw (Char.ofNat b.toNat)) := by
+  have hlt := hA b hb
+  have hn : (Char.ofNat b.toNat).toNat = b.toNat := toNat_ofNat_of_lt (by omega)
+  apply unquote_delimiters U hU _ (by omega) _ (by rw [hn, UInt8.ofNat_toNat]; exact hb)
+  intro e
+  have : (Char.ofNat b.toNat).toNat = 32 := by rw [e]; rfl
+  rw [hn] at this
+  exact hsp (UInt8.toNat_inj.1 (by simpa using this))
+
+/-- "introduces no control character", counting form: a control character occurs in the
+output at most as often as in the input (exactly as often for C0 controls and DEL — their
+escapes are kept —, never for C1 controls) -/
+theorem unquote_control_count (U : List UInt8) (hU : (0x25 : UInt8) ∈ U) (s : Str) (ch : Char)
+    (hc : isControl ch) : (safelyUnquote U s).count ch ≤ s.count ch := by
+  have hp : ch ≠ '%' := by
+    rintro rfl
+    have e : ('%' : Char).toNat = 37 := rfl
+    unfold isControl at hc; omega
+  have hx : isHexDigit ch = false := by
+    cases h : isHexDigit ch with
+    | false => rfl
+    | true => have := (isHexDigit_iff ch).1 h; unfold isControl at hc; omega
+  obtain ⟨et, _, hraw⟩ := unquote_tokens U hU s
+  rw [count_str ch hp hx (safelyUnquote U s), count_str ch hp hx s, et]
+  by_cases hlow : ch.toNat < 0x20 ∨ ch.toNat = 0x7f
+  · have hd : ch.toNat < 0x80 := by omega
+    have hsp : ch ≠ ' ' := by
+      rintro rfl
+      have e : (' ' : Char).toNat = 32 := rfl
+      omega
+    have hk : keepEsc U (UInt8.ofNat ch.toNat) = true := by
+      have hb : (UInt8.ofNat ch.toNat).toNat = ch.toNat := by simp; omega
+      simp only [keepEsc, Bool.or_eq_true, decide_eq_true_eq, beq_iff_eq]
+      rcases hlow with h | h
+      · left; left
+        rw [UInt8.lt_iff_toNat_lt, hb]; exact h
+      · left; right
+        apply UInt8.toNat_inj.1
+        rw [hb, h]; rfl
+    rw [count_unquoteToks_keep U ch hd hsp hk, count_escapeRaw ch hd]
+    exact Nat.le_refl _
+  · have h0 : (unquoteToks U (escapeRaw (tokens s))).count (.raw ch) = 0 := by
+      rw [List.count_eq_zero]
+      intro hm
+      have := hraw ch hm
+      have hc1 : isC1 ch = true := by
+        unfold isControl at hc
+        simp only [isC1, Bool.and_eq_true, decide_eq_true_eq]
+        omega
+      simp [staysEscaped, hc1] at this
+    rw [h0]
+    exact Nat.zero_le _
+
+/-- **unquote then quote** (what `canonicalize_url(quoted=True)` applies to a component): the
+scan of `safely_unquote_*(safely_quote(safely_unquote_*(s)))` is the scan of
+`safely_unquote_*(s)` with its raw delimiters and control characters spelled as escapes -/
+theorem unquote_quote_unquote (U : List UInt8) (hU : (0x25 : UInt8) ∈ U) (hA : AsciiSet U) (s : Str) :
+    tokens (safelyUnquote U (safelyQuote (safelyUnquote U s))) =
+      (tokens (safelyUnquote U s)).map (harden U) := by
+  rw [tokens_safelyUnquote U hU, tokens_safelyQuote, escapeRaw_quoteToks, tokens_safelyUnquote U hU]
+  exact unquoteToks_quote_unquote_harden U hU hA _ (wf_escapeRaw (wf_tokens s))
+    (fun c hc => (raw_mem_escapeRaw hc).2)
+
+/-- … hence `safely_quote ∘ safely_unquote_*` is idempotent, for every string -/
+theorem quote_unquote_idempotent (U : List UInt8) (hU : (0x25 : UInt8) ∈ U) (hA : AsciiSet U) (s : Str) :
+    safelyQuote (safelyUnquote U (safelyQuote (safelyUnquote U s))) = safelyQuote (safelyUnquote U s) := by
+  show render (quoteToks (tokens (safelyUnquote U (safelyQuote (safelyUnquote U s))))) =
+    render (quoteToks (tokens (safelyUnquote U s)))
+  rw [unquote_quote_unquote U hU hA, quoteToks_map_harden]
+
+/-! ## the four configurations the public API uses
+
+`safely_unquote_auth_item`, `_path`, `_query_item`, `_fragment` are `safelyUnquote` at the four
+regenerated tables (`tables_flags`: nothing else differs).  Every clause of the statement, for
+each of them, with no hypothesis left. -/
+
+def apiTables : List (List UInt8) :=
+  [Gen.Quote.unsafeForAuthItem, Gen.Quote.unsafeForPath, Gen.Quote.unsafeForQueryItem,
+    Gen.Quote.unsafeForFragment]
+
+theorem api_tables_ok (U : List UInt8) (h : U ∈ apiTables) : (0x25 : UInt8) ∈ U ∧ AsciiSet U := by
+  obtain ⟨p1, p2, p3, p4⟩ := tables_percent_unsafe
+  obtain ⟨a1, a2, a3, a4⟩ := tables_ascii
+  simp only [apiTables, List.mem_cons, List.not_mem_nil, or_false] at h
+  rcases h with rfl | rfl | rfl | rfl
+  · exact ⟨p1, a1⟩
+  · exact ⟨p2, a2⟩
+  · exact ⟨p3, a3⟩
+  · exact ⟨p4, a4⟩
+
+/-- each `safely_unquote_*` function, for every string: same decoded bytes; no raw space; no
+new control character; no stray `%` left; idempotent; idempotent when followed by
+`safely_quote`; commutes with `upper_quoted`; every byte of its own unsafe set other than the
+space has the same raw occurrences in the output as in the input -/
+theorem api_unquote_contract (U : List UInt8) (h : U ∈ apiTables) (s : Str) :
+    pctStr (safelyUnquote U s) = pctStr s ∧
+    ' ' ∉ safelyUnquote U s ∧
+    (∀ ch, isControl ch → (safelyUnquote U s).count ch ≤ s.count ch) ∧
+    Tok.stray ∉ tokens (safelyUnquote U s) ∧
+    safelyUnquote U (safelyUnquote U s) = safelyUnquote U s ∧
+    safelyQuote (safelyUnquote U (safelyQuote (safelyUnquote U s))) = safelyQuote (safelyUnquote U s) ∧
+    safelyUnquote U (upperQuoted s) = upperQuoted (safelyUnquote U s) ∧
+    (∀ b ∈ U, b ≠ 0x20 → (tokens (safelyUnquote U s)).count (.raw (Char.ofNat b.toNat)) =
+      (tokens s).count (.raw (Char.ofNat b.toNat))) := by
+  obtain ⟨hU, hA⟩ := api_tables_ok U h
+  exact ⟨unquote_pct U hU s, unquote_no_space U s, unquote_control_count U hU s,
+    unquote_no_stray U hU s, unquote_idempotent U hU hA s, quote_unquote_idempotent U hU hA s,
+    upper_commutes_unquote U hU s, fun b hb hsp => unquote_delimiters_table U hU hA b hb hsp s⟩
+
+/-- the delimiters of each component, by name (the lists of the table obligations
+`tables_*_delims`): `@ : / ? #` for a userinfo item, `/ ? #` for a path, `& = #` for a query
+item stay raw where raw and escaped where escaped (a fragment has no delimiter of its own;
+`unquote_delimiters_table` covers every further byte of each table, `[ ]` of the userinfo
+table included) -/
+theorem api_delimiters (s : Str) :
+    (∀ d ∈ ['@', ':', '/', '?', '#'],
+      (tokens (safelyUnquote Gen.Quote.unsafeForAuthItem s)).count (.raw d) = (tokens s).count (.raw d)) ∧
+    (∀ d ∈ ['/', '?', '#'],
+      (tokens (safelyUnquote Gen.Quote.unsafeForPath s)).count (.raw d) = (tokens s).count (.raw d)) ∧
+    (∀ d ∈ ['&', '=', '#'],
+      (tokens (safelyUnquote Gen.Quote.unsafeForQueryItem s)).count (.raw d) = (tokens s).count (.raw d)) := by
+  have key : ∀ (U : List UInt8), (0x25 : UInt8) ∈ U → ∀ ds : List Char,
+      (∀ d ∈ ds, d.toNat < 0x80 ∧ d ≠ ' ' ∧ UInt8.ofNat d.toNat ∈ U) →
+      ∀ d ∈ ds, (tokens (safelyUnquote U s)).count (.raw d) = (tokens s).count (.raw d) := by
+    intro U hU ds hds d hd
+    obtain ⟨h1, h2, h3⟩ := hds d hd
+    exact unquote_delimiters U hU d h1 h2 h3 s
+  obtain ⟨p1, p2, p3, _⟩ := tables_percent_unsafe
+  exact ⟨key _ p1 _ (by decide), key _ p2 _ (by decide), key _ p3 _ (by decide)⟩
+
+/-- the functions `canonicalize_url`'s model applies to the components are these four
+configurations (and `safely_quote`, `upper_quoted` themselves): the theorems above are about
+what the public API runs -/
+theorem api_functions :
+    Canonicalize.unquoteAuthItem = safelyUnquote Gen.Quote.unsafeForAuthItem ∧
+    Canonicalize.unquotePath = safelyUnquote Gen.Quote.unsafeForPath ∧
+    Canonicalize.unquoteQueryItem = safelyUnquote Gen.Quote.unsafeForQueryItem ∧
+    Canonicalize.unquoteFragment = safelyUnquote Gen.Quote.unsafeForFragment ∧
+    (∀ url dp, Canonicalize.cleanUrl url dp =
+      UrlParts.ensureProtocol (upperQuoted (strip (UrlParts.stripControl url))) dp) :=
+  ⟨rfl, rfl, rfl, rfl, fun _ _ => rfl⟩
+
+/-- `safely_unquote_qsl` / `safely_quote_qsl` (key/value lists): same shape — as many pairs, a
+missing value stays missing —, keys and values decode to the same bytes, and each of the two,
+and `quote ∘ unquote`, is idempotent -/
+theorem qsl_contract (l : List (Str × Option Str)) :
+    (Canonicalize.unquoteQsl l).map (fun p => (pctStr p.1, p.2.map pctStr)) =
+      l.map (fun p => (pctStr p.1, p.2.map pctStr)) ∧
+    (Canonicalize.quoteQsl l).map (fun p => (pctStr p.1, p.2.map pctStr)) =
+      l.map (fun p => (pctStr p.1, p.2.map pctStr)) ∧
+    Canonicalize.unquoteQsl (Canonicalize.unquoteQsl l) = Canonicalize.unquoteQsl l ∧
+    Canonicalize.quoteQsl (Canonicalize.quoteQsl l) = Canonicalize.quoteQsl l ∧
+    Canonicalize.quoteQsl (Canonicalize.unquoteQsl (Canonicalize.quoteQsl (Canonicalize.unquoteQsl l))) =
+      Canonicalize.quoteQsl (Canonicalize.unquoteQsl l) := by
+  obtain ⟨_, _, hU, _⟩ := tables_percent_unsafe
+  obtain ⟨_, _, hA, _⟩ := tables_ascii
+  have hp := unquote_pct _ hU
+  have hi := unquote_idempotent _ hU hA
+  have hq := quote_unquote_idempotent _ hU hA
+  simp only [Canonicalize.unquoteQsl, Canonicalize.quoteQsl, Canonicalize.unquoteQueryItem,
+    List.map_map]
+  refine ⟨?_, ?_, ?_, ?_, ?_⟩ <;>
+  · apply List.map_congr_left
+    rintro ⟨k, v⟩ _
+    cases v <;> simp [hp, hi, hq, quote_pct, quote_idempotent]
+
 /-! ## non-vacuity: the four regenerated configurations on a string with every kind of token -/
 
 example :
     safelyUnquote Gen.Quote.unsafeForPath "/a%E9b%C3%A9 %41%2F%zz%C2%85%7F%2541".toList
       = "/a%E9bé%20A%2F%25zz%C2%85%7F%2541".toList ∧
     safelyQuote "té%20 %zz/".toList = "t%C3%A9%20%20%25zz/".toList := by
+  decide +kernel
+
+/-- quoted mode on a path with a raw delimiter, a raw control character and a raw non-ASCII
+character: the second round changes nothing, although unquoting the quoted form is not the
+first unquoted form (`?` has become `%3F`) -/
+example :
+    safelyQuote (safelyUnquote Gen.Quote.unsafeForPath "a?é%41\n[".toList) = "a%3F%C3%A9A%0A%5B".toList ∧
+    safelyUnquote Gen.Quote.unsafeForPath "a%3F%C3%A9A%0A%5B".toList = "a%3FéA%0A[".toList ∧
+    safelyUnquote Gen.Quote.unsafeForPath "a?é%41\n[".toList = "a?éA\n[".toList ∧
+    Gen.Quote.unsafeForPath ∈ apiTables := by
   decide +kernel
 
 end Ural.Props.C14
